@@ -538,4 +538,42 @@ example : resolvePath [47,115,114,118] [47,46,46,47,120] = .ok [47,115,114,118,4
 example : findMount [[47,97],[47,97,47,98]] [47] [47,97,47,98,47,99] = some ([47,97,47,98], [47,99]) := by decide
 example : stringPrefixOnly [[47,97],[47,97,47,98]] [47] [47,97,47,98,47,99] = false := by decide
 
+/-! ### sessions -/
+
+theorem cwdAfter_append (c : Path) (a b : List SOp) : cwdAfter c (a ++ b) = cwdAfter (cwdAfter c a) b := by
+  induction a generalizing c with
+  | nil => rfl
+  | cons o a ih => cases o <;> simp [cwdAfter, ih]
+
+theorem runSession_append (ms : List Path) (c : Path) (a b : List SOp) :
+    runSession ms c (a ++ b) = runSession ms c a ++ runSession ms (cwdAfter c a) b := by
+  induction a generalizing c with
+  | nil => rfl
+  | cons o a ih => cases o <;> simp [runSession, cwdAfter, ih]
+
+/-- C13 (sessions): after ANY history of working-directory changes and lookups, the answer to
+    a lookup is `findMount` at the working directory of that moment. -/
+theorem session_answers (ms : List Path) (c : Path) (pre : List SOp) (p : Path) :
+    (runSession ms c (pre ++ [.lookup p])).getLast? = some (findMount ms (cwdAfter c pre) p) := by
+  rw [runSession_append]
+  simp [runSession]
+
+/-- … and earlier lookups are irrelevant to it: only the `Chdir`s of the history matter
+    (a lookup remembered under the path string it was asked with would break this). -/
+theorem session_lookups_irrelevant (c : Path) (pre : List SOp) :
+    cwdAfter c (pre.filter SOp.isChdir) = cwdAfter c pre := by
+  induction pre generalizing c with
+  | nil => rfl
+  | cons o r ih => cases o <;> simp [List.filter, SOp.isChdir, cwdAfter, ih]
+
+theorem session_answer_independent_of_lookups (ms : List Path) (c : Path) (pre : List SOp) (p : Path) :
+    (runSession ms c (pre ++ [.lookup p])).getLast? =
+      (runSession ms c (pre.filter SOp.isChdir ++ [.lookup p])).getLast? := by
+  rw [session_answers, session_answers, session_lookups_irrelevant]
+
+-- the same relative path under two working directories is served by two mounts
+example : runSession [[47,112,117,98],[47,112,114,105,118]] [47]
+    [.chdir [47,112,117,98], .lookup [110], .chdir [47,112,114,105,118], .lookup [110]] =
+    [some ([47,112,117,98], [47,110]), some ([47,112,114,105,118], [47,110])] := by decide
+
 end Risor.C13
